@@ -355,8 +355,26 @@ def directed_cases(rng, k0):
          {"c0": 200000, "c1": 200599, "pts": [[200050 * U, 0.0, 0.0, 1002]]}]
     out.append({"style": "max-interval-above-a-day", "A": a, "B": b, "mi": 93600, "md": 5.0, "start": -100, "end": 300000,
                 "processes": 1, "bundle": None, "output": "memory"})
+    # an unreadable primary file under skip_file_errors that is NOT the last one of its worker and has secondary files only
+    # it needs: three 60-minute primary files over nine 20-minute secondary files, the first (resp. middle) primary unreadable;
+    # exactly the collocations of that primary file are lost, the others come out
+    a = [{"c0": 3600 * k, "c1": 3600 * k + 3599,
+          "pts": [[(3600 * k + 600 * j + 10) * U + 3, 0.0, float(3 * k + j), 1 + 6 * k + j] for j in range(6)]} for k in range(3)]
+    b = [{"c0": 1200 * k, "c1": 1200 * k + 1199,
+          "pts": [[(1200 * k + 600 * j + 12) * U + 1, 0.0, (2 * k + j) // 2 * 1.0 + ((2 * k + j) % 2) * 0.0 + 0.01 * 0, 1001 + 2 * k + j]
+                  for j in range(2)]} for k in range(9)]
+    # secondary point j of file k sits next to the primary point of the same 10-minute slot: slot s = 2k + j -> primary file s // 6, point s % 6
+    for k in range(9):
+        for j in range(2):
+            sl = 2 * k + j
+            b[k]["pts"][j][2] = float(3 * (sl // 6) + sl % 6) + 0.005
+    for badk in (0, 1):
+        out.append({"style": "unreadable-primary-not-last", "A": [dict(f) for f in a], "B": [dict(f) for f in b], "mi": 30, "md": 5.0,
+                    "start": -100, "end": 20000, "processes": 1, "bundle": None, "output": "memory", "bad": ["A", badk], "skip": True})
     for i, c in enumerate(out):
-        c.update({"id": k0 + i, "bad": None, "skip": False, "np_seed": 1})
+        c.setdefault("bad", None)
+        c.setdefault("skip", False)
+        c.update({"id": k0 + i, "np_seed": 1})
         c.setdefault("delays", {})
         near = near_pairs(c)
         c["near"] = [list(x) for x in near]
